@@ -369,6 +369,16 @@ impl<'s, 'd> ProgGen<'s, 'd> {
         self.push(Ir::Comp(l, r), ty, ty)
     }
 
+    /// comp (disconnect s t) (take iden) : ty -> ty, with s : 2^256 * ty -> ty * c and t : c -> d
+    /// for a drawn (possibly wide) c and the given (usually narrow) d.
+    pub fn endo_via_disconnect(&mut self, ty: &Arc<RTy>, d: &Arc<RTy>, depth: usize) -> Id {
+        let b = RTy::prod(ty.clone(), d.clone());
+        let dn = self.disconnect_rule(ty, &b, depth);
+        let i = self.push(Ir::Iden, ty, ty);
+        let t = self.push(Ir::Take(i), &b, ty);
+        self.push(Ir::Comp(dn, t), ty, ty)
+    }
+
     pub fn finish(self, root: Id) -> Prog {
         Prog { nodes: self.nodes, root, family: self.cfg.family }
     }
